@@ -55,6 +55,12 @@ class C18(Prop):
         fn_spawns = kind.startswith("traced") and s.chance(1, 3, "fn-spawns")
         # the same wrapper object is used again from a second event loop (asyncio.run twice)
         second_loop = ("loop," not in kind) and not fn_spawns and s.chance(1, 5, "second-loop")
+        # fault: the executor was shut down before the call - submission is refused, the function must not run at all
+        executor_shut = kind.startswith("asynchronous") and s.chance(1, 8, "executor-shut-down")
+        if executor_shut:
+            second_loop = False
+        # an async function that went through `traced` is still an async function: wrap_async must hand it back unchanged
+        through_wrap_async = kind == "traced-async" and s.chance(1, 2, "traced-through-wrap-async")
         depth = s.draw(4, "depth")
         nest = [s.draw(2, "nest-kind") for _ in range(depth)]
         leak = bool(s.draw(2, "leak"))
@@ -63,13 +69,16 @@ class C18(Prop):
         form = s.draw(3, "call-form")
         sim.program = {"kind": kind, "shape": SHAPES[shape], "raises": raises, "awaitable_result": int(awaitable_result),
                        "nesting": nest, "leak": leak, "function_spawns_a_task": int(fn_spawns), "called_again_on_a_second_event_loop": int(second_loop),
-                       "parks": parks, "heartbeats": beats, "call_form": form}
+                       "parks": parks, "heartbeats": beats, "call_form": form, "executor_shut_down_before_call": int(executor_shut),
+                       "traced_then_wrap_async": int(through_wrap_async)}
         if depth:
             sim.nontrivial = True
         cap = capture()
         default_ex = threads.SimExecutor("default")
         explicit_ex = threads.SimExecutor("explicit")
         jobs = threads.install(sim, default_ex)
+        if executor_shut:
+            (explicit_ex if "executor" in kind else default_ex).shut = True
         loop_thread = threading.get_ident()
         class AwaitableResult:
             """A result that happens to be awaitable: it must be handed over as it is, not awaited."""
@@ -214,7 +223,7 @@ class C18(Prop):
             wrapped = traced(f)
         else:
             original = af
-            wrapped = traced(af)
+            wrapped = wrap_async(traced(af)) if through_wrap_async else traced(af)
 
         # metadata of every helper decorator (static part of the property)
         async def meta_async(x):
@@ -417,6 +426,15 @@ class C18(Prop):
         exc = sim.main.exception()
         if exc is not None:
             sim.harness_error(f"main failed: {exc!r}")
+            return
+        if executor_shut:
+            # the pool refused the job: that error is the call's outcome and the function never ran (in particular not inline on the loop)
+            if seen["calls"]:
+                sim.fail_post("ran-without-executor", f"{kind}: the executor was shut down but the function body ran {seen['calls']} time(s) "
+                              f"({'on the event-loop thread' if seen['thread'] == loop_thread else 'on another thread'})", kind=kind)
+            elif out.get("kind") != "raised" or not isinstance(out.get("obj"), RuntimeError):
+                sim.fail_post("outcome", f"{kind}: the executor refused the job but the caller got {out.get('kind')} {out.get('obj')!r}",
+                              kind=kind, got=type(out.get("obj")).__name__)
             return
         # transparency
         want = ("raised", exc_obj) if raises else ("value", result_obj)
